@@ -250,6 +250,27 @@ fn generate(cli: &Cli) -> (Vec<Case>, Vec<String>) {
                     variant: with_split(&base, sent.index, vec![(o, Duration::from_millis(200))]),
                 });
             }
+            // three segments: the length prefix (and a bit), a part of the body, the rest — the
+            // completion lands between the second and the third (frame starts 100 ms earlier:
+            // segments at -200 ms, -100 ms, +100 ms around the completion)
+            let spec3 = BaseSpec { name: "race3", intent: Intent::Login, secret: true, lat: [2_000, 2_000, 2_000], extras: vec![(completion_ms - 200, pkt.clone())], no_target: false, ci_delay_ms: 0 };
+            let base3 = build_base(&spec3, cli.seed ^ 0xf4 ^ (stage as u64) << 8);
+            let brun3 = run(&base3);
+            if let Some(sent3) = brun3.client.sent.iter().find(|s| s.label.starts_with("Extra")) {
+                let len = sent3.plain.len();
+                for o1 in [1usize, 2, 3, len / 3] {
+                    for o2 in [o1 + 1, (o1 + len) / 2, len - 1] {
+                        if o1 >= 1 && o2 > o1 && o2 < len {
+                            cases.push(Case {
+                                class: format!("race/{stage_name}-completes-inside/{fname}@{o1}+{o2}"),
+                                shape: format!("read/{stage_name}-completes-inside-frame-3-segments/{fname}"),
+                                base: base3.clone(),
+                                variant: with_split(&base3, sent3.index, vec![(o1, Duration::from_millis(100)), (o2, Duration::from_millis(200))]),
+                            });
+                        }
+                    }
+                }
+            }
         }
         // the Keep Alive echo itself in flight when the stage completes: tick, echo (prompt),
         // completion 100 ms later, second half of the echo 200 ms after the first
@@ -384,6 +405,12 @@ pub fn run_prop(cli: &Cli) -> i32 {
     for p in problems {
         report.inconclusive(&p);
     }
+    evaluate(cli, &mut report, cases);
+    report.finish()
+}
+
+
+fn evaluate(cli: &Cli, report: &mut Report, cases: Vec<Case>) {
     let results = par_map(cases, cli.threads(), |_, c| {
         let b = run(&c.base);
         let v = run(&c.variant);
@@ -421,5 +448,56 @@ pub fn run_prop(cli: &Cli) -> i32 {
             report.violation(&sig, &what, w);
         }
     }
+}
+
+/// C05 at the level of the connection: the switch to encryption happens in mid-stream, and with a
+/// client that does not wait for Login Success the server reads across it. For every receive chunk
+/// size the read boundary falls on a different byte relative to the switch; the bytes read ahead
+/// and the bytes read later must form one continuous decryption (observable as: same trace as the
+/// reactive client, clientbound stream decrypts and parses).
+pub fn run_cipher_switch(cli: &Cli) -> i32 {
+    let mut report = Report::new(
+        cli,
+        "exploration",
+        "connection-level part of C05: clients that pipeline the Encryption Response and the following (encrypted) frames, received by the server in chunks of every size 1..48 and around the Encryption Response frame length (with and without spurious Pending), for login / transfer / slow-routing baselines; oracle: trace equals the reactive client's trace and the clientbound stream decrypts and parses under the independent cipher; distinct = (baseline, pipelining mode, chunk size, pending pattern)",
+    );
+    let mut cases = vec![];
+    let mut chunks: Vec<usize> = (1..=48).collect();
+    chunks.extend([64, 100, 200, 261, 262, 263, 264, 265, 266, 267, 270, 300, 500, 4096]);
+    if cli.tier == Tier::Thorough {
+        chunks.extend(49..=260);
+    }
+    for (bi, spec) in bases().iter().enumerate() {
+        if spec.intent == Intent::Status {
+            continue;
+        }
+        let base = build_base(spec, cli.seed.wrapping_mul(41).wrapping_add(bi as u64));
+        for keep_wait in [false, true] {
+            let mut v = base.clone();
+            v.client.script.retain(|a| match a {
+                Act::AwaitPkt { name, .. } => *name == "EncryptionRequest" || (keep_wait && *name == "LoginSuccess"),
+                _ => true,
+            });
+            for &c in &chunks {
+                for pending in [vec![], vec![true, false], vec![false, true, true]] {
+                    let mut v = v.clone();
+                    v.read_plan = ReadPlan { chunks: vec![c], pending: pending.clone() };
+                    cases.push(Case {
+                        class: format!("{}/pipelined{}/chunk-{c}/pending-{}", spec.name, if keep_wait { "-after-login" } else { "" }, pending.len()),
+                        shape: "cipher-switch/read-ahead-across-switch".into(),
+                        base: base.clone(),
+                        variant: v,
+                    });
+                }
+            }
+            // two alternating chunk sizes
+            for (a, b) in [(1usize, 262usize), (262, 1), (263, 2), (7, 300), (264, 1)] {
+                let mut v = v.clone();
+                v.read_plan = ReadPlan { chunks: vec![a, b], pending: vec![] };
+                cases.push(Case { class: format!("{}/pipelined{}/chunks-{a}-{b}", spec.name, if keep_wait { "-after-login" } else { "" }), shape: "cipher-switch/read-ahead-across-switch".into(), base: base.clone(), variant: v });
+            }
+        }
+    }
+    evaluate(cli, &mut report, cases);
     report.finish()
 }
